@@ -181,6 +181,10 @@ def read_expr(node: ast.AST, where: str) -> tuple:
     if isinstance(node, ast.IfExp):
         flag, positive = read_flag(node.test, where)
         a, b = read_expr(node.body, where), read_expr(node.orelse, where)
+        agg = flag_aggregate(node.test)
+        if agg is not None:
+            # 5th element: the test quantifies over ALL blocks ('any' / 'all') instead of selecting the row block's flag
+            return ("ifexp", flag, a, b, agg) if positive else ("ifexp", flag, b, a, agg)
         return ("ifexp", flag, a, b) if positive else ("ifexp", flag, b, a)
     if isinstance(node, ast.Call):
         if not isinstance(node.func, ast.Name) or node.keywords:
@@ -189,11 +193,37 @@ def read_expr(node: ast.AST, where: str) -> tuple:
     raise AnalysisError(RULE, f"{where}: unsupported expression {norm(node)}")
 
 
+def _aggregate_form(test: ast.AST) -> tuple[str, bool] | None:
+    """`True in commuting_blocks` (any), `False not in commuting_blocks` (all) and their
+    negations -> (aggregate, polarity): the test is `aggregate(commuting_blocks)` when polarity else its negation."""
+    def is_cb(n):
+        return isinstance(n, ast.Name) and n.id == "commuting_blocks"
+    # (the call forms any(...) / all(...) are not accepted: the DSL compiler turns every call into a scope-function call)
+    if (isinstance(test, ast.Compare) and len(test.ops) == 1 and is_cb(test.comparators[0])
+            and isinstance(test.left, ast.Constant) and isinstance(test.left.value, bool)):
+        val, op = test.left.value, test.ops[0]
+        if isinstance(op, ast.In):
+            return ("any", True) if val else ("all", False)
+        if isinstance(op, ast.NotIn):
+            return ("any", False) if val else ("all", True)
+    return None
+
+
+def flag_aggregate(test: ast.AST) -> str | None:
+    while isinstance(test, ast.UnaryOp) and isinstance(test.op, ast.Not):
+        test = test.operand
+    f = _aggregate_form(test)
+    return f[0] if f else None
+
+
 def read_flag(test: ast.AST, where: str) -> tuple[str, bool]:
     """Return (flag, polarity) of an IfExp test."""
     if isinstance(test, ast.UnaryOp) and isinstance(test.op, ast.Not):
         f, p = read_flag(test.operand, where)
         return f, not p
+    agg = _aggregate_form(test)
+    if agg is not None:
+        return "commuting_blocks", agg[1]
     if isinstance(test, ast.Name) and test.id in FLAGS:
         if test.id == "commuting_blocks":
             raise AnalysisError(RULE, f"{where}: commuting_blocks used without a block index")
